@@ -164,3 +164,11 @@ def reload_in_place(mod, donor):
         return True
     except Exception:
         return False
+
+
+def call_lib_nograd(fn, *a, **k):
+    """the same call inside torch.no_grad() (a context in which autograd.Functions are bypassed by some
+    'fast paths'): results must not depend on it"""
+    import torch
+    with torch.no_grad():
+        return call_lib(fn, *a, **k)
